@@ -179,11 +179,12 @@ class Schema:
         group = '<xs:sequence>' + ''.join(self.particle_xsd(p) for p in ct['own_particles']) + '</xs:sequence>'
         if c == 'cz':
             group = ''
+        asr = f'<xs:assert test="{esc(ct["assert"])}"/>' if ct.get('assert') else ''
         if ct.get('base') is not None:
             b = self.ctypes[ct['base']]
-            return (f'<xs:complexContent><xs:extension base="t:{b["name"]}">{group}{attrs}'
+            return (f'<xs:complexContent><xs:extension base="t:{b["name"]}">{group}{attrs}{asr}'
                     f'</xs:extension></xs:complexContent>')
-        return group + attrs
+        return group + attrs + asr
 
     def ctype_xsd(self, ct, name_attr: bool) -> str:
         nm = f' name="{ct["name"]}"' if name_attr and ct['name'] else ''
@@ -643,6 +644,22 @@ class Gen:
                                 'subst_of': head['name'], 'nillable': False, 'default': None})
             s.globals += [head] + members
             ps.append(('PE', head, [m['name'] for m in members], (0, None)))
+        # XSD 1.1: a complex type with an assertion over its typed children (evaluated by xmlschema
+        # through elementpath with a proxy whose base element is the xs:assert)
+        s.assert_elems = []
+        if s.version == '1.1' and r.random() < 0.6:
+            b = r.choice(['int', 'integer', 'decimal', 'short', 'unsignedByte', 'long', 'nonNegativeInteger'])
+            lo = {'name': 'lo', 'ty': ('TS', ('B', b)), 'nillable': False, 'default': None}
+            hi = {'name': 'hi', 'ty': ('TS', ('B', b)), 'nillable': False, 'default': None}
+            test = r.choice(['t:lo le t:hi', 't:hi ge t:lo', '(t:hi - t:lo) ge 0', 'not(t:lo gt t:hi)'])
+            cid_ = self.new_ctype('ce', [('PE', lo, [], (1, 1)), ('PE', hi, [], (1, 1))],
+                                  [{'name': 'k', 'type': ('B', 'int'), 'default': None, 'required': False}],
+                                  name=self.fresh('rg'))
+            s.ctypes[cid_]['assert'] = test
+            s.ctypes[cid_]['assert_builtin'] = b
+            e = {'name': self.fresh('r'), 'ty': ('TC', cid_), 'nillable': False, 'default': None}
+            ps.insert(r.randint(0, len(ps)), ('PE', e, [], (0, 2)))
+            s.assert_elems.append(e)
         # a mixed / anyType element
         if r.random() < 0.3:
             ps.append(('PE', {'name': self.fresh('y'), 'ty': ('TS', ('B', 'anyType')), 'nillable': False,
@@ -786,6 +803,18 @@ class InstGen:
         c = ct['content']
         if isinstance(c, tuple):
             node['kids'] = self.content_for_simple(c[1], e)
+        elif c == 'ce' and ct.get('assert'):
+            b = ct['assert_builtin']
+            if b == 'decimal':
+                pool = [Decimal(x) for x in ('-12.5', '0', '1.50', '9', '10', '100.25')]
+            else:
+                pool = [v for v in (-7, 0, 1, 9, 10, 42, 100, 127, 255) if in_bounds(b, v)]
+            a_, b_ = sorted([r.choice(pool), r.choice(pool)])
+            mk = lambda nm, v: {'name': clark(nm), 'attrs': [], 'kids': [str(v)], 'xsi': None,
+                                'decl': next(p[1] for p in ct['own_particles'] if p[1]['name'] == nm),
+                                'ty': ('TS', ('B', b))}
+            node['kids'] = [mk('lo', a_), mk('hi', b_)]
+            node['range'] = (a_, b_)
         elif c == 'ce':
             node['kids'] = self.particles_content(ct, depth) if depth < 4 else self.particles_content(ct, depth)
         elif c == 'cm':
@@ -1680,7 +1709,7 @@ def finish_case(sch: Schema, inst: dict, paths: list, lib: str, iof_rate: float)
     line = ' '.join(['S'] + sch.tokens() + ['T'] + forest_tokens(root) + ['Q', str(len(qs))] +
                     [t for d, _, toks in qs for t in ['P', '1' if d else '0'] + toks])
     return {'version': sch.version, 'xsd': sch.xsd(), 'xml': xml, 'lib': lib, 'paths': qs, 'line': line,
-            'expected_types': expected, 'expected_attrs': exp_attrs, 'iof_rate': iof_rate}
+            'expected_types': expected, 'expected_attrs': exp_attrs, 'iof_rate': iof_rate, '_gen': (sch, inst)}
 
 
 def gen_case(rng, quick: bool) -> dict | None:
@@ -1701,11 +1730,187 @@ def gen_case(rng, quick: bool) -> dict | None:
     return finish_case(sch, inst, paths, rng.choice(['lxml', 'lxml', 'etree']), 0.18)
 
 
+# ======================================================================================
+# proxy CONSTRUCTOR variants: explicit proxy + bind_parser, base_element = global / local element /
+# xs:assert; end-to-end XMLSchema11.is_valid on asserted types
+# ======================================================================================
+def strip_recs(info: dict) -> dict:
+    return {k: {f: v[f] for f in v if f in ('T', 'E', 'M', 'N', 'D')} for k, v in info['recs'].items()}
+
+
+def sub_case(case: dict, node: dict) -> dict:
+    return {'version': case['version'], 'xsd': case['xsd'], 'xml': to_xml(node), 'lib': case['lib'], 'paths': []}
+
+
+def sb_line(sch: Schema, decl: dict, assertion: bool, xml: str) -> str:
+    import lxml.etree as LE
+    root = LE.fromstring(xml.encode())
+    return ' '.join(['SB', '1' if assertion else '0'] + sch.elem_tok(decl) + sch.tokens() + ['T'] +
+                    forest_tokens(root) + ['Q', '0'])
+
+
+def proxy_variants(run: Run, case: dict, impl: Impl, pending: list) -> None:
+    from xmlschema.xpath import XMLSchemaProxy
+    import lxml.etree as LE
+    st = run.stats
+    sch, inst = case['_gen']
+    xs = impl.xs
+    cid = {'xsd': case['xsd'], 'xml': case['xml'], 'version': case['version'], 'lib': case['lib']}
+    CUR_VERSION[0] = case['version']
+
+    def dis(what, impl_v, spec, extra=None, model=None):
+        run.disagree(Disagreement(dict(cid, where=what, **(extra or {})), impl=impl_v, model=model, spec=spec,
+                                  what=what.split(':')[0], site='schema_proxy constructor variants / apply_schema base_element branch'))
+
+    try:
+        base = strip_recs(impl_records(impl))
+    except Exception as e:
+        dis('proxy-variant:default-crash', impl_err(e), 'ok')
+        return
+    # ---- V1: explicit proxy object, parser bound afterwards with bind_parser -------------------
+    try:
+        p1 = XMLSchemaProxy(xs)
+        im1 = Impl(case, xs=xs, proxy=p1)
+        im1.parser_s = impl.XPath2Parser(namespaces=dict(PNS), variable_types={'v': 'item()'})
+        p1.bind_parser(im1.parser_s)
+        got = strip_recs(impl_records(im1))
+        sel = run_select(im1, '//*', True, False)
+    except Exception as e:
+        got, sel = {'crash': impl_err(e)}, 'crash'
+    st.count('proxy-variant:bind_parser')
+    if got != base or sel != run_select(impl, '//*', True, False):
+        k = next((k for k in base if got.get(k) != base[k]), 'selection')
+        dis(f'proxy-variant:bind_parser:{k}', json_s(got.get(k, sel)), json_s(base.get(k)))
+    # ---- V2: base_element = the global declaration of the root ---------------------------------
+    try:
+        p2 = XMLSchemaProxy(xs, base_element=xs.elements['root'])
+        got = strip_recs(impl_records(Impl(case, xs=xs, proxy=p2)))
+    except Exception as e:
+        got = {'crash': impl_err(e)}
+    st.count('proxy-variant:base=global-root')
+    if got != base:
+        k = next((k for k in base if got.get(k) != base[k]), 'crash')
+        dis(f'proxy-variant:base-global:{k}', json_s(got.get(k)), json_s(base.get(k)))
+    pending.append((sb_line(sch, sch.root, False, case['xml']), got, dict(cid, where='base=global root')))
+    # ---- V3 / V4: a child of the root as context root, base_element = its local declaration or
+    #               the xs:assert of its complex type ------------------------------------------------
+    full = LE.fromstring(case['xml'].encode())
+    eidx, _ = index_tree(full)
+    kids = [k for k in inst['kids'] if not isinstance(k, str)]
+    kid_elems = [c for c in full if not callable(c.tag)]
+    root_ct = xs.elements['root'].type
+    for node, el in list(zip(kids, kid_elems))[:8]:
+        decl = node.get('decl')
+        if decl is None or decl.get('global') or node.get('xsi') or node.get('ty') is None:
+            continue
+        ct = sch.ctypes[node['ty'][1]] if node['ty'][0] == 'TC' else None
+        asserted = bool(ct and ct.get('assert'))
+        if not asserted and run.rng.random() < 0.5:
+            continue
+        comp = next((e for e in root_ct.content.iter_elements() if e.name == clark(decl['name'])), None)
+        if comp is None:
+            continue
+        off = eidx[el]
+        sub = sub_case(case, node)
+        n_sub = sum(1 for _ in LE.fromstring(sub['xml'].encode()).iter())     # elements (comments are not generated)
+        for assertion in ([False, True] if asserted else [False]):
+            try:
+                be = comp.type.assertions[0] if assertion else comp
+                px = XMLSchemaProxy(xs, base_element=be)
+                imx = Impl(sub, xs=xs, proxy=px)
+                info = impl_records(imx)
+                got = strip_recs(info)
+            except Exception as e:
+                info, got = None, {'crash': impl_err(e)}
+            st.count('proxy-variant:base=' + ('assert' if assertion else 'local-element'))
+            # the Lean model of the base_element branch
+            pending.append((sb_line(sch, decl, assertion, sub['xml']), got,
+                            dict(cid, where='base=' + ('xs:assert' if assertion else 'local element'), sub_xml=sub['xml'])))
+            # the subtree must be typed exactly as inside the whole document (root: xs:anyType under an assertion)
+            for key, r in got.items():
+                if key == 'crash':
+                    dis('proxy-variant:crash', r, 'ok', {'sub_xml': sub['xml']})
+                    break
+                kind, rest = key[0], key[1:]
+                i = int(rest.split('.')[0])
+                fkey = f'{kind}{off + i}' + ('.' + rest.split('.')[1] if '.' in rest else '')
+                want = base.get(fkey)
+                if assertion and key == 'n0':
+                    want = dict(want or {}, T=XS + 'anyType')
+                    r = dict(r, M=want.get('M'))          # the untyped root's own value is not compared
+                if want is None or {f: r.get(f) for f in ('T', 'M')} != {f: want.get(f) for f in ('T', 'M')}:
+                    dis(f'proxy-variant:subtree-typing:{key}', json_s(r), json_s(want),
+                        {'sub_xml': sub['xml'], 'base_element': 'xs:assert' if assertion else 'local element'})
+                    break
+            if assertion and info is not None and 'range' in node:
+                lo, hi = node['range']
+                b = ct['assert_builtin']
+                top = info['nt']
+                for expr, want in ((ct['assert'], True), ('t:lo le t:hi', True), ('t:lo gt t:hi', lo > hi),
+                                   (f't:lo instance of element(*, xs:{b})', True),
+                                   (f'(t:hi - t:lo) instance of xs:{"decimal" if b == "decimal" else "integer"}', True),
+                                   ('(t:hi - t:lo) instance of xs:double', False)):
+                    try:
+                        res = eval_on(imx, info, top, expr)
+                    except Exception as e:
+                        res = impl_err(e)
+                    st.count('proxy-variant:assert-expression')
+                    if res is not want:
+                        dis(f'proxy-variant:assert-expression:{expr}', repr(res), repr(want),
+                            {'sub_xml': sub['xml'], 'expr': expr})
+    # ---- end to end: XMLSchema11.is_valid with assertions -----------------------------------------
+    ranged = [k for k in kids if 'range' in k]
+    if ranged and 'undeclared:' not in case['xml']:      # (instances with an unresolvable xsi:type prefix are invalid anyway)
+        st.count('validity:asserted-instance')
+        if not impl.valid:
+            dis('validity:valid-instance-rejected', 'invalid', 'valid')
+        k = run.rng.choice(ranged)
+        lo, hi = k['range']
+        if lo != hi:
+            import copy as _copy
+            bad = _copy.deepcopy({kk: vv for kk, vv in inst.items()})
+            for kk in bad['kids']:
+                if not isinstance(kk, str) and kk.get('range') == (lo, hi) and kk['name'] == k['name']:
+                    kk['kids'][0]['kids'], kk['kids'][1]['kids'] = [str(hi)], [str(lo)]
+                    break
+            try:
+                ok = xs.is_valid(to_xml(bad))
+            except Exception as e:
+                ok = impl_err(e)
+            st.count('validity:violated-assertion')
+            if ok is not False:
+                dis('validity:violated-assertion-accepted', repr(ok), 'False', {'bad_xml': to_xml(bad)})
+
+
+def flush_sb(run: Run, pending: list) -> None:
+    if not pending:
+        return
+    answers = run.driver('C20', [p[0] for p in pending])
+    for (line, got, cid), ans in zip(pending, answers):
+        run.stats.count('proxy-variant:model-compared')
+        if ans.startswith('bad-'):
+            run.disagree(Disagreement(cid, 'driver:' + ans, what='protocol'))
+            continue
+        A = parse_answer(ans)
+        for key, m in A.items():
+            if key[0] not in 'na':
+                continue
+            r = got.get(key)
+            mine = {'T': m['T'], 'M': m['M']} if key[0] == 'a' else {'T': m['T'], 'E': m['E'], 'M': m['M']}
+            if m['M'] == 'via':
+                continue
+            if r is None or {f: r.get(f) for f in mine} != mine:
+                run.disagree(Disagreement(dict(cid, node=key), impl=json_s(r), model=json_s(mine), spec=None,
+                                          what='base-element-model', site='xpath_nodes.apply_schema (base_element branch)'))
+                break
+    pending.clear()
+
+
 def compare(run: Run, cases: list[dict]) -> None:
     lines = [c['line'] for c in cases]
     answers = run.driver('C20', lines)
     for case, ans in zip(cases, answers):
-        pub = {k: v for k, v in case.items() if k not in ('line',)}
+        pub = {k: v for k, v in case.items() if k not in ('line', '_gen')}
         if ans.startswith('bad-'):
             run.disagree(Disagreement(pub, 'driver:' + ans, what='protocol'))
             continue
@@ -1717,11 +1922,19 @@ def compare(run: Run, cases: list[dict]) -> None:
             continue
         n_before = len(run.disagreements)
         check_case(run, case, ans, impl)
+        if '_gen' in case and run.rng.random() < case.get('variant_rate', 0.18):
+            try:
+                proxy_variants(run, case, impl, PENDING_SB)
+            except Exception as e:      # a crash of the real code inside a variant is a finding, not a harness fault
+                run.disagree(Disagreement({'xsd': case['xsd'], 'xml': case['xml'], 'where': 'proxy-variant'},
+                                          impl=impl_err(e), spec='ok', what='proxy-variant',
+                                          site='schema_proxy constructor variants'))
         run.stats.case({'xsd': case['xsd'], 'xml': case['xml'], 'paths': [p[1] for p in case['paths']]},
                        nontrivial=True, sample_every=211)
         run.stats.count('elements', case['xml'].count('</') + case['xml'].count('/>'))
         if len(run.disagreements) > n_before:
             run.stats.count('cases-with-disagreement')
+    flush_sb(run, PENDING_SB)
 
 
 # ======================================================================================
@@ -1811,7 +2024,7 @@ def corpus_cases() -> list[dict]:
 
 def correspond(run: Run) -> None:
     rng = run.rng
-    n = run.scale(1300, 9000)
+    n = run.scale(1100, 9000)
     run.stats.rule = (
         'one case = (generated schema over 21 builtin atomic types with restrictions, lists, unions, '
         'simple-content extensions, nillable, defaults, xsi:type, substitution groups, wildcards; XSD 1.0 or 1.1) '
@@ -2057,6 +2270,7 @@ def json_s(x) -> str:
 
 
 PENDING_UNBUILT: list = []
+PENDING_SB: list = []
 
 
 def histories(run: Run, n: int) -> None:
